@@ -192,7 +192,10 @@ class Driver:
             err = self.p.stderr.read()[-2000:] if self.p.stderr else ''
             raise Infra(f'driver {self.file} died: {err}')
         self.n += 1
-        return json.loads(line)
+        try:
+            return json.loads(line)
+        except ValueError:
+            raise Infra(f'driver {self.file} printed a non-JSON line (does it build?): {line[:300]}')
 
     def ask_many(self, reqs):
         """pipelined: write everything from a thread, read responses in order"""
@@ -214,7 +217,11 @@ class Driver:
                 t.join()
                 err = self.p.stderr.read()[-2000:] if self.p.stderr else ''
                 raise Infra(f'driver {self.file} died after {len(out)} responses: {err}')
-            out.append(json.loads(line))
+            try:
+                out.append(json.loads(line))
+            except ValueError:
+                t.join()
+                raise Infra(f'driver {self.file} printed a non-JSON line (does it build?): {line[:300]}')
         t.join()
         self.n += len(reqs)
         return out
